@@ -72,9 +72,12 @@ def typed_chains(domain: str, max_len: int, min_len: int = 1):
 _BUILT: dict[str, dict] = {}
 
 
-def build(domain: str) -> dict:
-    """Returns {name: operator}; built once per worker process so that identity relations are stable."""
-    if domain in _BUILT:
+def build(domain: str, variant: int = 0, fresh: bool = False) -> dict:
+    """Returns {name: operator}; built once per worker process so that identity relations are stable.
+
+    fresh=True builds a new, uncached set of operators whose floating-point parameters are scaled by 2**variant (exact):
+    used to build "the same expressions with other values" after an earlier set has been dropped."""
+    if domain in _BUILT and not fresh:
         return _BUILT[domain]
     import jax
     import jax.numpy as jnp
@@ -97,7 +100,7 @@ def build(domain: str) -> dict:
         return jax.ShapeDtypeStruct(shape, f32)
 
     def arr(v, dt=f32):
-        return jnp.asarray(v, dtype=dt)
+        return jnp.asarray(v, dtype=dt) * jnp.asarray(2.0 ** variant, dtype=dt)
 
     def dense(m, s):
         return DenseBlockDiagonalOperator(arr(m), s, 'ij,j->i')
@@ -266,5 +269,6 @@ def build(domain: str) -> dict:
             raise RuntimeError(f'domain {domain}: atom {name} is declared {i}->{o} but is {op.in_structure()} -> {op.out_structure()}')
     if set(atoms) != set(TYPES[domain]):
         raise RuntimeError(f'domain {domain}: atoms and TYPES differ: {set(atoms) ^ set(TYPES[domain])}')
-    _BUILT[domain] = atoms
+    if not fresh:
+        _BUILT[domain] = atoms
     return atoms
